@@ -5,7 +5,10 @@ cd "$(dirname "$0")"
 export CARGO_NET_OFFLINE=true
 export CARGO_TARGET_DIR="$(pwd)/harness/target"
 (cd harness && cargo build --release --offline)
+JAR=/opt/veriftools/tla/tla2tools.jar
 for f in spec/*/*.tla; do
-  (cd "$(dirname "$f")" && tla-sany "$(basename "$f")" > /dev/null) || { echo "SANY failed on $f"; exit 1; }
+  (cd "$(dirname "$f")" && java -DTLA-Library="$(pwd)/../common" -cp $JAR:/opt/veriftools/tla/CommunityModules-deps.jar tla2sany.SANY "$(basename "$f")" > /tmp/sany.$$ 2>&1) || true
+  if grep -q "Semantic errors\|Parse Error\|\*\*\* Errors\|Could not find module\|Fatal" /tmp/sany.$$; then echo "SANY failed on $f"; cat /tmp/sany.$$ | tail -20; rm -f /tmp/sany.$$; exit 1; fi
 done
+rm -f /tmp/sany.$$
 echo setup ok
